@@ -74,11 +74,11 @@ CHECKS["C20"] = dict(
           "asis_violates_spec refutes the snapshot's `or` (repaired by fix c9c5774d). Tie (differential test): ~4k quick / ~39k thorough "
           "generated pairs through the public constructors, the UGRID reader and sample files of 6 formats, all ordered pairs of a small "
           "family (every combination of differing fields), g==g, copies, 16 kinds of non-Grid operands; the Lean driver evaluates the "
-          "decidable Spec (specB_iff) on observed arrays and outputs. Backing state: gridEqB transcribes xarray's lazy shortcut on dask-backed variables; backing_irrelevant / eqB_values_only prove that with faithful dask names (equal name => equal values, evaluated by Lean on the names observed for every pair) the result is the value-level gridEq, so chunk()/re-chunk/one-sided chunk/copy/isel/lazy open cannot change ==; unfaithful_names_break is the proved counterexample otherwise. The differential run repeats identical and one-entry-mutated pairs (both orders, == and !=) in all these backing states (Grid.chunk with random n_node/n_edge/n_face on both sides with the same or different arguments or on one side, copy, isel, derived tables, open_grid(chunks={})) with the value-level Spec as oracle (~780 dask pairs quick, ~6.5k thorough)."),
+          "decidable Spec (specB_iff) on observed arrays and outputs. Backing state: gridEqB transcribes xarray's lazy shortcut on dask-backed variables; backing_irrelevant / eqB_values_only prove that with faithful dask names (equal name => equal values, evaluated by Lean on the names observed for every pair) the result is the value-level gridEq, so chunk()/re-chunk/one-sided chunk/copy/isel/lazy open cannot change ==; unfaithful_names_break is the proved counterexample otherwise. The differential run repeats identical and one-entry-mutated pairs (both orders, == and !=) in all these backing states (Grid.chunk with random n_node/n_edge/n_face on both sides with the same or different arguments or on one side, copy, isel, derived tables, open_grid(chunks={})) with the value-level Spec as oracle (~780 dask pairs quick, ~6.5k thorough). eq_implies_same_shape / eqB_implies_same_shape (equal => same n_face and width, in every backing state), reshape_detected (same flattened connectivity incl. fills, other shape => unequal), flatten_blind_wrong (a flattened comparison calls 4 triangles / 3 quads / 2 hexagons over the same 12 nodes equal and violates the Spec). The differential run adds pairs equal under projections of the arrays: reshapes a x b / b x a / (ab/c) x c of the same flattening (ring families, every generated table, trailing fills), permuted / reversed rows, transposed tables, same multiset, same sum, middle-row / middle-entry changes, reversed coordinates, lengths only."),
     note=_TB + "Modelled, not verified: DataArray.equals (dims, NaN-aware elements, coordinates), IEEE == on bit patterns (compared "
          "per run with Lean Float, NumPy and xarray on special/random doubles), Python's reflected-comparison fallback, canonical "
          "dimension names. 'Identical' is array identity (shape, NaN-in-place, +0 = -0, dtype ignored). One KNOWN-FINDING "
-         "(coords-structure) remains. dask's content tokenisation is not proved (namesFaithful is checked per observed pair); name collisions inside merged dask graphs are seen only through the value-level Spec.",
+         "(coords-structure) remains. dask's content tokenisation is not proved (namesFaithful is checked per observed pair); name collisions inside merged dask graphs are seen only through the value-level Spec. Reshaped / shuffled tables may be malformed faces; they are valid inputs of == (constructors accept them), calls that raise on them (isel) drop the pair.",
     technique="Lean 4 theorems over a hand model (bit-level IEEE equality, backing-independence under faithful dask names) + differential correspondence with Lean-evaluated spec",
 )
 
